@@ -30,6 +30,8 @@ uint8_t Encoder::getStreamId() const
 
 void Encoder::setMessageType(const Packet& packet){
     messageType = packet.getMessageType();
+    // The cached frame template carries the previous message type
+    cmpFrameTemplate.clear();
     addNewCMPFrame(packet);
 }
 
